@@ -1,0 +1,31 @@
+//go:build verif
+
+package rueidisprob
+
+// Add-only exports for the verification harness (build tag verif): the unexported sizing, hash and
+// index functions and the parameters a constructed filter ended up with.
+
+// VerifSizing returns what the constructors compute from (expectedNumberOfItems, falsePositiveRate).
+func VerifSizing(n uint, rate float64) (size, hashIterations uint) {
+	size = numberOfBloomFilterBits(n, rate)
+	return size, numberOfBloomFilterHashFunctions(size, n)
+}
+
+// VerifHash is the 128-bit hash the filters use.
+func VerifHash(b []byte) (uint64, uint64) { return hash(b) }
+
+// VerifIndex is the i-th bit index of a key with hash (h1, h2).
+func VerifIndex(h1, h2 uint64, i uint, size uint64) uint64 { return index(h1, h2, i, size) }
+
+// VerifParams returns (size, hashIterations) of a filter built by one of the constructors.
+func VerifParams(f any) (size, hashIterations uint, ok bool) {
+	switch x := f.(type) {
+	case *bloomFilter:
+		return x.size, x.hashIterations, true
+	case *countingBloomFilter:
+		return x.size, x.hashIterations, true
+	case *slidingBloomFilter:
+		return x.size, x.hashIterations, true
+	}
+	return 0, 0, false
+}
